@@ -14,5 +14,6 @@ def check(A):
         S.ws_receive_errors(A, fl, 'C04')
         R.response_rules(A, fl, 'C04', parts=('errors',))
         R.trigger_event_rules(A, fl, 'C04')
+        S.ping_task_rules(A, fl, 'C04')
     from . import C02
     C02.check(A, only_decode=True, prefix='C04')
